@@ -23,8 +23,38 @@
                                         other in _comps_state and the status is still OK
    Not a theorem: that MGM2 reaches an assignment selecting every orphan exactly once (liveness
    of a randomised search), message transport, threads, replication itself (C25).  The real
-   resilient runs of harness/props/C27.py check the whole statement on the end state. *)
-From PyDcop Require Import Base M_RepairOrch P_RepairOrch.
+   resilient runs of harness/props/C27.py check the whole statement on the end state.
+
+   DEEPENING (second half of this file; models M_RepairOrch2 = ResilientAgent.setup_repair, the
+   activation rule on the agent's own binary variables, Directory._computations_data, composed
+   with M_Repair (C26) and M_RepairOrch):
+     setup_repair_never_fails           what the orchestrator sends never makes setup_repair raise
+     agent_repair_dcop_zero_iff         one agent's hard constraints (hosted + capacity) are all 0
+                                        iff each of its candidates is selected exactly once among
+                                        that candidate's agents and its own selection fits
+     repair_zero_hard_cost_iff_valid    the whole repair DCOP has hard cost 0 iff the outcome is a
+                                        valid re-hosting (exactly one surviving replica holder per
+                                        orphan, capacities respected)
+     selections_exact                   what each agent deploys/reports = its variables at 1
+     repair_done_any_order              the repair_done messages of one repair, in ANY order, end
+                                        in exactly one status + resume; _comps_state = all marks
+     repair_reported_ok_iff             ... and that status is OK iff every pending orphan was
+                                        selected AT LEAST once  (quantifies the finding: OK-but-
+                                        invalid = all selected, one selected several times)
+     repair_ok_never_lost               OK never hides a computation hosted nowhere
+     rehost_directory_consistent        whatever the interleaving of the departed agents' late
+                                        un-publications with the new hosts' registrations, the
+                                        directory ends naming the agent that hosts the computation
+     repair_valid_outcome_exactly_one   composition: hard cost 0 + every orphan has a surviving
+                                        replica holder => status OK, and bookkeeping, agents
+                                        (hosts_after) and directory all name the same single
+                                        surviving replica holder with x = 1
+     reachable_keys_distinct            the distinct-key hypotheses hold in every reachable state
+   Still outside: that MGM2 (randomised local search, 20 cycles) REACHES a zero-hard-cost
+   outcome; transport; threads; replication (C25). *)
+From PyDcop Require Import Base M_Repair P_Repair M_RepairOrch2 P_RepairOrch2 P_RepairOrch3.
+From PyDcop Require Import M_RepairOrch P_RepairOrch P_RepairOrch4.
+From Coq Require Import Permutation.
 
 Theorem repair_status_ok_iff : forall ro st a sel ags b,
   In (ROStatus b) (snd (rstep ro st (RvRepairDone a sel ags))) ->
@@ -81,4 +111,117 @@ Example c27_nonvacuous :
     = [ROStatus false; ROResume "a1"; ROResume "a2"] /\
   hosts_after [("v1", "a0"); ("v2", "a1")] ["a0"] [("a1", ["v1"]); ("a2", [])] "v1" = ["a1"] /\
   agent_selected [("v1", 1); ("v3", 0)] = ["v1"].
+Proof. vm_compute. repeat split; reflexivity. Qed.
+
+(* ====================== deepening: the composed repair pipeline ====================== *)
+Close Scope string_scope.
+
+Theorem setup_repair_never_fails : forall s cands,
+  is_candidates s cands ->
+  (forall a, In a cands -> exists l, candidate_agt_info a (s_departed s) (s_graph s) (s_disc s) = Ok l) ->
+  exists ds, all_dcops s cands = Ok ds.
+Proof. exact all_dcops_defined. Qed.
+
+Theorem agent_repair_dcop_zero_iff : forall own rem fp inf rd x,
+  wf_info own inf -> binary_on x inf -> setup_repair own rem fp inf = Ok rd ->
+  (exists v, agent_hard rd x = Ok v /\ 0 <= v) /\
+  (agent_hard rd x = Ok 0 <->
+   (forall ci, In ci inf -> exactly_one x (fst ci) (cands_of ci)) /\
+   load fp x own (map fst inf) <= rem).
+Proof. exact agent_hard_zero_iff. Qed.
+
+(* s = Discovery contents, graph, departed agents, capacities, footprints; cands = the agents
+   the orchestrator sends setup_repair to; ds = the repair DCOP part built by each of them *)
+Theorem repair_zero_hard_cost_iff_valid : forall s cands ds x,
+  is_candidates s cands -> binary_outcome s x -> all_dcops s cands = Ok ds ->
+  (total_hard ds x = Ok 0 <-> valid_rehosting s cands x).
+Proof. exact repair_zero_hard_cost_iff_valid_l. Qed.
+
+Theorem selections_exact : forall s cands ds x,
+  is_candidates s cands -> all_dcops s cands = Ok ds ->
+  map fst (selections ds x) = cands /\
+  forall a sel c, In (a, sel) (selections ds x) ->
+    (In c sel <-> In c (orph s) /\ holder s c a /\ x (c, a) = 1).
+Proof. exact selections_spec. Qed.
+
+Theorem repair_done_any_order : forall ro ags dones st,
+  NoDup (map fst (r_agts st)) -> NoDup (map fst dones) -> dones <> [] ->
+  (forall a, slookup a (r_agts st) = Some SRepairRun <-> In a (map fst dones)) ->
+  exists agts', run_dones ro st dones ags
+                = finish_repair (negb ro) agts' (marks dones (r_comps st)) (r_dist_count st) ags.
+Proof. exact run_dones_spec. Qed.
+
+Theorem repair_reported_ok_iff : forall ro ags dones st b,
+  NoDup (map fst (r_agts st)) -> NoDup (map fst (r_comps st)) ->
+  NoDup (map fst dones) -> dones <> [] ->
+  (forall a, slookup a (r_agts st) = Some SRepairRun <-> In a (map fst dones)) ->
+  In (ROStatus b) (snd (run_dones ro st dones ags)) ->
+  (b = true <-> forall c, In (c, None) (r_comps st) -> selected_in dones c).
+Proof. exact repair_reported_ok_iff_l. Qed.
+
+Theorem repair_ok_never_lost : forall ro ags dones st hosting leaving c,
+  NoDup (map fst (r_agts st)) -> NoDup (map fst (r_comps st)) ->
+  NoDup (map fst dones) -> dones <> [] ->
+  (forall a, slookup a (r_agts st) = Some SRepairRun <-> In a (map fst dones)) ->
+  In (ROStatus true) (snd (run_dones ro st dones ags)) ->
+  In (c, None) (r_comps st) -> hosts_after hosting leaving dones c <> [].
+Proof. exact repair_ok_never_lost_l. Qed.
+
+(* ops = ANY interleaving of the departed agents' un-publications (each naming its sender,
+   Agent._on_stop since e9e3188) with the registrations made by the agents that deploy *)
+Theorem rehost_directory_consistent : forall hosting departed sels ops t c a sel,
+  Permutation ops (departure_ops hosting departed ++ rehost_ops sels) ->
+  In (a, sel) sels -> In c sel -> ~ In a departed ->
+  (forall a' sel', In (a', sel') sels -> In c sel' -> a' = a) ->
+  slookup c (dir_run t ops) = Some a.
+Proof. exact rehost_directory_consistent_l. Qed.
+
+Theorem repair_valid_outcome_exactly_one : forall s cands ds x ro st dones ags hosting ops t,
+  is_candidates s cands -> NoDup cands -> cands <> [] -> binary_outcome s x ->
+  all_dcops s cands = Ok ds ->
+  total_hard ds x = Ok 0 ->                                  (* no violated hard constraint *)
+  (forall c, In c (orph s) -> exists a, holder s c a) ->     (* level k, at most k agents left *)
+  NoDup (map fst (r_agts st)) -> NoDup (map fst (r_comps st)) ->
+  (forall a, slookup a (r_agts st) = Some SRepairRun <-> In a cands) ->
+  (forall c, In (c, None) (r_comps st) -> In c (orph s)) ->
+  Permutation dones (selections ds x) ->                     (* repair_done in any order *)
+  (forall c h, In (c, h) hosting -> In c (orph s) -> In h (s_departed s)) ->
+  Permutation ops (departure_ops hosting (s_departed s) ++ rehost_ops (selections ds x)) ->
+  snd (run_dones ro st dones ags) = ROStatus true :: (if negb ro then map ROResume ags else []) /\
+  forall c, In c (orph s) ->
+    exists a, holder s c a /\ x (c, a) = 1 /\
+      slookup c (r_comps (fst (run_dones ro st dones ags))) = Some (Some a) /\
+      hosts_after hosting (s_departed s) (selections ds x) c = [a] /\
+      slookup c (dir_run t ops) = Some a.
+Proof. exact repair_valid_outcome_exactly_one_l. Qed.
+
+Theorem reachable_keys_distinct : forall ro tr,
+  NoDup (map fst (r_agts (rrun ro rinit tr))) /\ NoDup (map fst (r_comps (rrun ro rinit tr))).
+Proof. exact rrun_keys_ok_l. Qed.
+
+(* non-vacuity of the composition: a0 (hosting v1, v2) leaves; replicas v1 -> a1, a2 and
+   v2 -> a2; outcome x: v1 on a1, v2 on a2.  Hard cost 0, selections, orchestrator from the
+   initial state through removal / ready / done (a2 answers first), late un-publications *)
+Open Scope string_scope.
+Example c27_composition_nonvacuous :
+  let d := mkDisc [("v1", "a0"); ("v2", "a0"); ("v3", "a1")]
+                  [("v1", ["a1"; "a2"]); ("v2", ["a2"]); ("v3", ["a0"])] in
+  let s := mkScen d [("v1", ["v2"]); ("v2", ["v1"; "v3"]); ("v3", ["v2"])] ["a0"]
+                  [("a1", 10); ("a2", 10)] [("v1", 7); ("v2", 7)] in
+  let x := x_of [(("v1", "a1"), 1); (("v1", "a2"), 0); (("v2", "a2"), 1)] in
+  let x2 := x_of [(("v1", "a1"), 0); (("v1", "a2"), 1); (("v2", "a2"), 1)] in
+  let pre := [RvRun ["a0"; "a1"; "a2"]; RvRemoval ["a0"] ["a0"; "a1"; "a2"] ["v1"; "v2"] ["a1"; "a2"];
+              RvRepairReady "a2"; RvRepairReady "a1"] in
+  candidate_agents ["a0"] d = Ok ["a1"; "a2"] /\
+  match all_dcops s ["a1"; "a2"] with
+  | Err _ => False
+  | Ok ds =>
+    total_hard ds x = Ok 0 /\ total_hard ds x2 = Ok 10000 /\     (* x2 overloads a2: 14 > 10 *)
+    selections ds x = [("a1", ["v1"]); ("a2", ["v2"])] /\
+    snd (run_dones false (rrun false rinit pre) [("a2", ["v2"]); ("a1", ["v1"])] ["a1"; "a2"])
+      = [ROStatus true; ROResume "a1"; ROResume "a2"] /\
+    dir_run [("v1", "a0"); ("v2", "a0"); ("v3", "a1")]
+            [DReg "v1" "a1"; DUnreg "v1" (Some "a0"); DUnreg "v2" (Some "a0"); DReg "v2" "a2"]
+      = [("v1", "a1"); ("v3", "a1"); ("v2", "a2")]
+  end.
 Proof. vm_compute. repeat split; reflexivity. Qed.
